@@ -380,3 +380,22 @@ pub fn render_log(log: &[Ev]) -> Vec<String> {
         })
         .collect()
 }
+
+/// Run `f` on this thread with no scripted wire installed (real sockets).
+pub fn run_plain<T>(f: impl FnOnce() -> GDResult<T>) -> Run<T> {
+    verif_hook::uninstall();
+    alloc::arm();
+    let r = panics::catch(f);
+    let stats = alloc::disarm();
+    let ended = match r {
+        Ok(Ok(v)) => Ended::Ok(v),
+        Ok(Err(e)) => Ended::Err(e.kind),
+        Err(p) => Ended::Panic(p),
+    };
+    Run {
+        ended,
+        log: Vec::new(),
+        runaway: false,
+        alloc: stats,
+    }
+}
